@@ -4,13 +4,15 @@
    (stop, kill, all references dropped, start-up failure, on_run error, panic - including the
    deadlock detector's panic), with asks queued, in flight, or blocked on a full mailbox.
 
-   What is NOT in the model: (1) ask_join - the JoinHandle returned by the handler and the task it
-   spawned are user code plus tokio's JoinHandle; only the ask layer below it is modelled.
+   What is NOT in the model: (1) the task spawned by an ask_join handler and tokio's JoinHandle
+   are user code plus tokio; ask_join itself is a pure function of the underlying ask's result and
+   of how the task ended (Model/Join.v, C03_ask_join_exact), compared case by case with the real
+   crate by the join_probe binary.
    (2) That tokio wakes the asking task when the oneshot is completed or dropped and when the
    channel closes: the model has a poll label and the theorems say what that poll returns; the
    correspondence check (paused-clock runs to quiescence) is what ties "is woken" to the code.
    (3) The typed downcast of the boxed reply (the harness uses one reply type per request id). *)
-From RS Require Import Tactics Spec Lifecycle Queue QueueStep CoreInv Delivery OpsSpec OpCases AccTrace Reply.
+From RS Require Import Tactics Spec Lifecycle Queue QueueStep CoreInv Delivery OpsSpec OpCases AccTrace Reply Join.
 
 (* Ok(v) returned by an ask is the value sitting in that request's own reply slot, put there by a
    handler that ran for that very request id and did not panic *)
@@ -66,6 +68,21 @@ Theorem C03_ended_iff_closed : forall f ls a x,
   get_actor (run f ls) a = Some x -> (a_closed x = true <-> ended_pc (a_pc x)).
 Proof. intros f ls a x Hx. destruct (cores_ok_run f ls a x Hx) as [_ _ _ _ k5 _ _]. exact k5. Qed.
 
+(* ask_join returns exactly the task's output, or its join error, and passes the ask's own errors
+   through; it never returns Ok unless the ask succeeded and the task returned that value *)
+Theorem C03_ask_join_exact : forall ask t r, ask_join ask t = Some r ->
+  (forall v, r = JOk v <-> (exists h, ask = ROk h) /\ t = TVal v) /\
+  (forall e, r = JErr e <-> ask = RErr e) /\
+  (r = JJoin JPanicked <-> (exists h, ask = ROk h) /\ t = TPanic) /\
+  (r = JJoin JCancelled <-> (exists h, ask = ROk h) /\ t = TAborted).
+Proof.
+  intros ask t r H. destruct ask as [h|e|]; cbn in H; [|injection H as <-|discriminate].
+  - destruct t; injection H as <-; repeat split; intros; try discriminate; try congruence; eauto;
+      try (match goal with H : _ /\ _ |- _ => destruct H as [_ H]; try discriminate; try congruence end).
+  - repeat split; intros; try discriminate; try congruence;
+      try (match goal with H : (exists _, _) /\ _ |- _ => destruct H as [[? H] _]; discriminate end).
+Qed.
+
 (* ---------- non-vacuity ---------- *)
 (* two concurrent asks 1 and 2, answered 11 and 22: each asker gets its own value *)
 Definition c03_two_asks : list label :=
@@ -100,6 +117,8 @@ Proof. vm_compute. reflexivity. Qed.
 
 Check C03_reply_integrity. Check C03_exit_unique. Check C03_exit_by_target. Check C03_invariant.
 Check C03_ended_slot_settled. Check C03_poll_on_ended_completes. Check C03_begin_on_ended. Check C03_ended_iff_closed.
+Check C03_ask_join_exact.
+Print Assumptions C03_ask_join_exact.
 Print Assumptions C03_reply_integrity.
 Print Assumptions C03_exit_unique.
 Print Assumptions C03_exit_by_target.
